@@ -82,6 +82,24 @@ def checksum_is_plain_sum_2_19(program):
             return False, found
     return True, found
 
+def fresh_encoder(program, seq=0):
+    """the encoder object as NMEA2000Encoder() with default arguments leaves it (constructor interpreted: options a later version adds carry their
+    defaults), with the sequence counter set to `seq`; the minimal object when the constructor is not interpretable"""
+    cls = program.cls('encoder', 'NMEA2000Encoder')
+    methods = {n.name: n for n in cls.body if isinstance(n, (ast.FunctionDef, ast.AsyncFunctionDef))}
+    o = A.AObj()
+    try:
+        o.attrs.update(A.class_constants(None, cls))
+        if '__init__' in methods:
+            A.Interp(methods=methods, skip=is_logger, module=A.ModuleEnv(program.mod('encoder').tree)).call_function(methods['__init__'], [o])
+    except (A.Unknown, A.RaiseSignal, A.PyError, KeyError, AttributeError, TypeError, RecursionError):
+        o = A.AObj()
+        o.attrs.update(A.class_constants(None, cls))
+    if 'sequence_counter' not in o.attrs and len(o.attrs) > len(A.class_constants(None, cls)):
+        o.attrs['__counter_elsewhere__'] = True          # the constructor ran and keeps the counter somewhere else (a property, a helper object)
+    o.attrs['sequence_counter'] = seq if isinstance(seq, A.AInt) else A.AInt(seq)
+    return o
+
 def fresh_decoder(program):
     """the decoder object as NMEA2000Decoder() with default arguments leaves it (constructor interpreted); the empty object when the constructor
     is not interpretable"""
@@ -163,7 +181,7 @@ def make_message():
     return A.AObj(PGN=A.sym_int('pgn', 18), source=A.sym_int('src', 8), destination=A.sym_int('dst', 8), priority=A.sym_int('prio', 3),
                   id=A.AOpaque('id'), fields=A.AOpaque('fields'))
 
-def encode_with(program, method, frames, payload=None):
+def encode_with(program, method, frames, payload=None, message=None):
     """interpret NMEA2000Encoder.<method>(message) with the frame list given. -> (result, recorder)"""
     fn = program.fn('encoder', f"NMEA2000Encoder.{method}")
     rec = Recorder()
@@ -189,8 +207,8 @@ def encode_with(program, method, frames, payload=None):
             return A.AInt(None, [('csum', k) for k in range(8)])
         return NotImplemented
     it = A.Interp(methods=enc_methods, hook=hook, skip=is_logger)
-    selfo = A.AObj(sequence_counter=A.AInt(0))
-    msg = make_message()
+    selfo = fresh_encoder(program, 0)
+    msg = message if message is not None else make_message()
     res = it.call_function(fn, [selfo, msg])
     if not isinstance(res, (A.AStr, A.ABytes)) and (not isinstance(res, A.AList) or not res.items or not all(isinstance(x, (A.ABytes, A.AStr)) for x in res.items)):
         raise A.Unknown(f"{method}: the packets returned were not followed ({res!r})"[:160])
